@@ -794,7 +794,52 @@ func c18NoCopy(c *Ctx) {
 		_, ok := r[chk.f]
 		c.Check(rule, chk.fn+" consults "+p.FieldName(chk.f), obj.Pos(), ok, chk.fn+" no longer looks at "+p.FieldName(chk.f)+": column chunks could be spliced verbatim (in clear, or under another key) into an encrypted file")
 	}
-	c.Min(rule, 2)
+	// an encrypted source, or an encrypting destination, rules the verbatim copy
+	// out on its own: the non-nil edge of each of those tests leads straight to
+	// `return false`, not to a further condition
+	if obj := p.LookupFunc("columnChunkIsCopyable"); obj != nil {
+		fn := p.SSAFunc(obj)
+		srcKey := p.LookupField("FileColumnChunk", "decryptionKey")
+		watched := map[*types.Var]bool{key: true, srcKey: true}
+		for _, b := range fn.Blocks {
+			if len(b.Instrs) == 0 {
+				continue
+			}
+			ifi, ok := b.Instrs[len(b.Instrs)-1].(*ssa.If)
+			if !ok {
+				continue
+			}
+			bo, ok := ifi.Cond.(*ssa.BinOp)
+			if !ok || !(isNilConst(bo.X) || isNilConst(bo.Y)) || (bo.Op != token.NEQ && bo.Op != token.EQL) {
+				continue
+			}
+			var f *types.Var
+			for _, side := range []ssa.Value{bo.X, bo.Y} {
+				for _, o := range Origins(side, OriginOpts{}) {
+					if o.Kind == OrgField && watched[o.Field] {
+						f = o.Field
+					}
+				}
+			}
+			if f == nil {
+				continue
+			}
+			t := b.Succs[0]
+			if bo.Op == token.EQL {
+				t = b.Succs[1]
+			}
+			refuses := false
+			if len(t.Instrs) > 0 {
+				if ret, isRet := t.Instrs[len(t.Instrs)-1].(*ssa.Return); isRet && len(ret.Results) == 1 {
+					if k, isC := ret.Results[0].(*ssa.Const); isC && k.Value != nil && k.Value.ExactString() == "false" {
+						refuses = true
+					}
+				}
+			}
+			c.Check(rule, "columnChunkIsCopyable refuses as soon as "+p.FieldName(f)+" is set", ifi.Pos(), refuses, "in columnChunkIsCopyable a non-nil "+p.FieldName(f)+" no longer refuses the verbatim copy by itself (the test is combined with another condition): the ciphertext of an encrypted source is spliced into a plaintext file, or plaintext into an encrypting writer")
+		}
+	}
+	c.Min(rule, 4)
 }
 
 // c18MissingKey: a column whose key the KeyRetriever does not have must not
